@@ -69,6 +69,11 @@ class World(SessionWorld):
             from sim.core import SetupViolation, HarnessError
             raise SetupViolation("session-did-not-join-on-WELCOME", repr(err)[:200])
         self.ops_left = 4 + ch.choose(14, "nops")
+        if ch.flag("router-assigns-small-ids", 0.25):
+            # subscription and publication ids from the same small range as the session's request ids: they are different
+            # number spaces, equal numbers mean nothing
+            self.next_id = ch.choose(6, "first-router-id")
+            self.cfg["small_ids"] = True
         self.run.log("cfg", sorted(self.cfg.items()))
 
     # --- the application's handlers ------------------------------------------------------------------------
